@@ -73,9 +73,10 @@ CLAIMS = {
     "C14": bounded("BOUNDED (deciding): stop-and-continue at every interruption index, save/restore round trip (dill) vs an uninterrupted run. PROVED support: the driver loop is "
                    "re-entrant for an arbitrary existing history (C13 contract)."),
     "C15": mixed("PROVED for every grid size/sorted grid with the distribution abstracted by its interval moments (A-DIST): weighted trapezoidal weights are non-negative and equal "
-                 "the per-interval moment formula; lemmas: uniform => trapezoidal/(b-a); E[cf+e]=cE[f]+e, Var[cf+e]=c^2 Var[f], constant model; variance never negative (1..3 outputs); get_middle_weighted with an abstract strictly increasing cdf and its inverse ppf returns a point strictly inside the interval "
+                 "the per-interval moment formula, and (ghost Sum through the accumulation loop, lemmas sum-update / total-mass) add up to the probability of [x_0, x_{n-1}], i.e. to 1 "
+                 "when the grid spans the support and interval probabilities are additive (A-DIST-ADD); lemmas: uniform => trapezoidal/(b-a); E[cf+e]=cE[f]+e, Var[cf+e]=c^2 Var[f], constant model; variance never negative (1..3 outputs); get_middle_weighted with an abstract strictly increasing cdf and its inverse ppf returns a point strictly inside the interval "
                  "that halves its probability. "
-                 "BOUNDED: real distributions (uniform/triangle/normal), weighted midpoint, sums to 1, the real UQ pipeline."),
+                 "BOUNDED: real distributions (uniform/triangle/normal), weighted midpoint with inexact ppf, sums to 1 incl. infinite ends and boundary-off renormalisation, the real UQ pipeline."),
     "C16": mixed("PROVED for every dimension with symbolic coordinates: calculate_R_value_analytically returns the product of the 1-D L2 products of the two hat functions (Gram entry), 0 for non-adjacent; "
                  "lemma: the closed forms are the integrals; hat_function_non_symmetric (standard basis) and hat_function (uniform grid) return the product of the 1-D hat values for every dimension; "
                  "check_adjacency is true exactly when the indices differ by at most one in every dimension. BOUNDED: matrix assembly (uniform / dimension-wise), SPD, mass lumping, right-hand side on all three size paths, "
